@@ -39,6 +39,12 @@ func ParseConfig() (*Config, error) {
 		return nil, fmt.Errorf("failed to load config (%s): %v", envPath, err)
 	}
 
+	if c.RegConfig == nil {
+		// No key of the embedded registration config was present (an empty or truncated file):
+		// there is nothing to parse, and nothing a running station could be reloaded with.
+		return nil, fmt.Errorf("failed to load config (%s): no registration settings found", envPath)
+	}
+
 	if err := c.ParseBlocklists(); err != nil {
 		return nil, fmt.Errorf("failed to load config (%s): %v", envPath, err)
 	}
